@@ -1,10 +1,13 @@
 import Driver.Util
 import Driver.Suites.Blocks
 import Driver.Suites.PD
+import Driver.Suites.PW
 /-! Table of suites known to the driver.  One line per suite (merge=union friendly). -/
 namespace Driver
 def registry : List Suite := [
   Suites.Blocks.suite,
   Suites.PD.suite,
+  Suites.PW.suitePW,
+  Suites.PW.suiteBP,
 ]
 end Driver
